@@ -9,3 +9,100 @@ Theorem C03_errors_frame :
   forall sg sp o sp' e, spec_step sg sp o = (sp', OErr e) -> sp' = sp.
 Proof. exact spec_errors_frame. Qed.
 Print Assumptions C03_errors_frame.
+
+(* Attribute reads and edits refine the specification. *)
+Theorem C03_refines_getattr :
+  forall sg st n, valid_sig sg = true -> inv sg st -> refines_step sg st (OGetAttr n).
+Proof. exact refines_getattr. Qed.
+Print Assumptions C03_refines_getattr.
+
+Theorem C03_refines_setattr :
+  forall sg st n v, valid_sig sg = true -> inv sg st -> op_ok (OSetAttr n v) = true ->
+                    refines_step sg st (OSetAttr n v).
+Proof. exact refines_setattr. Qed.
+Print Assumptions C03_refines_setattr.
+
+Theorem C03_refines_delattr :
+  forall sg st n, valid_sig sg = true -> inv sg st -> refines_step sg st (ODelAttr n).
+Proof. exact refines_delattr. Qed.
+Print Assumptions C03_refines_delattr.
+
+(* cfg[:] is the specification's positional list, and has its length. *)
+Theorem C03_positional_view_abs :
+  forall sg st, valid_sig sg = true -> inv sg st -> positional_view sg st = spec_view sg (abs sg st).
+Proof. exact positional_view_abs. Qed.
+Print Assumptions C03_positional_view_abs.
+
+Theorem C03_all_positional_length :
+  forall sg st, valid_sig sg = true -> zlen (all_positional sg st) = spec_len sg (abs sg st).
+Proof. exact all_positional_length. Qed.
+Print Assumptions C03_all_positional_length.
+
+Theorem C03_refines_getitem :
+  forall sg st i, valid_sig sg = true -> inv sg st -> refines_step sg st (OGetItem i).
+Proof. exact refines_getitem. Qed.
+Print Assumptions C03_refines_getitem.
+
+Theorem C03_refines_getslice :
+  forall sg st sl, valid_sig sg = true -> inv sg st -> refines_step sg st (OGetSlice sl).
+Proof. exact refines_getslice. Qed.
+Print Assumptions C03_refines_getslice.
+
+(* Single-index and slice edits refine the specification. *)
+Theorem C03_refines_setitem :
+  forall sg st i v, valid_sig sg = true -> inv sg st -> op_ok (OSetItem i v) = true ->
+                    refines_step sg st (OSetItem i v).
+Proof. exact refines_setitem. Qed.
+Print Assumptions C03_refines_setitem.
+
+Theorem C03_refines_delitem :
+  forall sg st i, valid_sig sg = true -> inv sg st -> refines_step sg st (ODelItem i).
+Proof. exact refines_delitem. Qed.
+Print Assumptions C03_refines_delitem.
+
+Theorem C03_refines_setslice :
+  forall sg st sl vs, valid_sig sg = true -> inv sg st -> op_ok (OSetSlice sl vs) = true ->
+                      refines_step sg st (OSetSlice sl vs).
+Proof. exact refines_setslice. Qed.
+Print Assumptions C03_refines_setslice.
+
+Theorem C03_refines_delslice :
+  forall sg st sl, valid_sig sg = true -> inv sg st -> refines_step sg st (ODelSlice sl).
+Proof. exact refines_delslice. Qed.
+Print Assumptions C03_refines_delslice.
+
+(* One step of any operation: same result, abstraction commutes, invariant preserved.
+   refines_step sg st o unfolds to
+     let '(st', r) := step sg st o in
+     let '(sp', r') := spec_step sg (abs sg st) o in
+     r = r' /\ abs sg st' = sp' /\ inv sg st'. *)
+Theorem C03_refines_all :
+  forall sg st o, valid_sig sg = true -> inv sg st -> op_ok o = true ->
+    let '(st', r) := step sg st o in
+    let '(sp', r') := spec_step sg (abs sg st) o in
+    r = r' /\ abs sg st' = sp' /\ inv sg st'.
+Proof. exact refines_all. Qed.
+Print Assumptions C03_refines_all.
+
+(* Any edit history: the invariant is maintained and the abstraction of the final store is the
+   specification's final state. *)
+Theorem C03_refines_history :
+  forall sg ops st, valid_sig sg = true -> inv sg st -> forallb op_ok ops = true ->
+    let run := fold_left (fun s o => fst (step sg s o)) ops st in
+    inv sg run
+    /\ abs sg run = fold_left (fun sp o => fst (spec_step sg sp o)) ops (abs sg st).
+Proof. exact refines_history. Qed.
+Print Assumptions C03_refines_history.
+
+(* ... and every value / exception reported along the way is the specification's. *)
+Theorem C03_refines_history_outputs :
+  forall sg ops st, valid_sig sg = true -> inv sg st -> forallb op_ok ops = true ->
+    outs_model sg st ops = outs_spec sg (abs sg st) ops.
+Proof. exact refines_history_outputs. Qed.
+Print Assumptions C03_refines_history_outputs.
+
+(* Non-vacuity: a signature with every parameter kind and a store with several entries satisfy
+   the hypotheses. *)
+Theorem C03_nonvacuous : valid_sig ex_sig = true /\ inv ex_sig ex_store.
+Proof. exact ex_nonvacuous. Qed.
+Print Assumptions C03_nonvacuous.
